@@ -253,6 +253,8 @@ def check(pid, tier, seed, a):
         "wall_s": round(time.time() - t_start, 2),
         "violations": len(violations),
     }
+    if not samples and st_res:
+        ev["coverage"]["samples"] = st_res.get("samples") or [{"note": "no sample recorded"}]
     if st_res:
         ev["coverage"]["evaluations"] = int(st_res.get("evaluations", 0))
         ev["coverage"]["distinct_nontrivial"] = int(st_res.get("distinct_nontrivial", 0))
@@ -260,6 +262,14 @@ def check(pid, tier, seed, a):
     os.makedirs(os.path.join(VERIF, "evidence"), exist_ok=True)
     with open(os.path.join(VERIF, "evidence", f"{pid}.json"), "w") as fh:
         json.dump(ev, fh, indent=1, default=str)
+    try:
+        import jsonschema
+        with open("/root/.vp/EVIDENCE.schema.json") as fh:
+            jsonschema.validate(json.loads(json.dumps(ev, default=str)), json.load(fh))
+    except FileNotFoundError:
+        pass
+    except Exception as exc:
+        print("CHECKER-ERROR evidence does not validate:", str(exc)[:300])
 
     # ---------------------------------------------------------------- report
     for ln in dict.fromkeys(re.sub(r" \[(stand-in|obligation) [^\]]*\]$", "", x) for x in lines):
